@@ -1,8 +1,99 @@
 (** C19 - A dumped simulation restores to the same values and entity structure.
-    Only statements here; proofs are in proofs/DumpProofs.v. *)
+    Only statements here; proofs are in proofs/DumpProofs.v.
+
+    Vocabulary (coq/model/Dump.v over coq/model/Engine.v).  A simulation [simu] is the
+    machine state [st] of the engine (holders = [cache], evaluation stack, invalidated
+    entries) plus what the populations hold: person ids and count, group ids and count,
+    members_entity_id, members_role, members_position.  [dump_simulation show sy og u dir]
+    writes it into the directory [dir] of a file system (association list path -> content):
+    the entity arrays and, for every array a holder knows, a file named
+    [file_name show p] = str(period) ++ ".npy" in the variable's directory.
+    [restore_simulation parse sy og f] rebuilds a simulation from such a directory; the
+    period of an array is obtained by PARSING the file name.  [og] is the group entity of
+    the tax-benefit system ([None]: persons only).
+
+    The printing function [show] (Period.__str__) and the parsing function [parse]
+    (periods.period) are parameters, related by the explicit hypothesis
+        forall p, storable p -> parse (show p) = Ok p
+    which is C05's theorem period_roundtrip ([storable]: unit-aligned periods).  The
+    correspondence check runs the model with the total injective encoding
+    [show_enc] / [parse_enc] of corr/Corr_C19.v, for which the hypothesis is proved here
+    for every period ([correspondence_encoding_roundtrips]).
+
+    [dumpable storable sy og u]: every array the holders know belongs to a declared, not
+    neutralised variable, has one element per member of the variable's entity, sits under
+    the eternity period (eternal variable) or one period of the definition unit, and that
+    period is storable; counts are the lengths of the id arrays; every member's role is one
+    of the entity's flattened roles, whose keys are pairwise distinct; members_position is
+    computable.  [dumpable_b] is its decidable form (without storability), evaluated by the
+    correspondence on every generated state. *)
 From Coq Require Import ZArith List Bool Arith String.
-From Verif Require Import Base Cal Period Group Engine EngineProofs Dump DumpProofs.
+From Verif Require Import Base Cal Period Group Engine EngineProofs Dump CorrEng Corr_C19 DumpProofs.
 Import ListNotations.
+Open Scope nat_scope.
+Local Notation length := List.length.
+
+(** Restoring a dump gives a simulation that holds, for every variable and period, the
+    array the original held (same lookup for every key, hence nothing more and nothing
+    less), an empty evaluation stack, and the same ids, counts, memberships, roles and
+    positions; the engine computes on the same population. *)
+Theorem restore_dump_identity :
+  forall (show : period -> string) (parse : string -> res period) (storable : period -> Prop),
+  (forall p, storable p -> parse (show p) = Ok p) ->
+  forall sy og u, dumpable storable sy og u ->
+  exists f u', dump_simulation show sy og u [] = Ok f
+    /\ restore_simulation parse sy og f = Ok u'
+    /\ (forall k, lookup k (cache (u_st u')) = lookup k (cache (u_st u)))
+    /\ stack (u_st u') = [] /\ invalid (u_st u') = []
+    /\ same_structure og u u'
+    /\ pop_of og u' = pop_of og u.
+Proof. exact restore_dump_identity_proof. Qed.
+Print Assumptions restore_dump_identity.
+
+(** What [same_structure] says. *)
+Theorem same_structure_unfolds : forall og u u', same_structure og u u' <->
+  u_pcount u' = u_pcount u /\ u_pids u' = u_pids u /\
+  match og with
+  | Some _ => u_gcount u' = u_gcount u /\ u_gids u' = u_gids u /\ u_members u' = u_members u
+              /\ u_roles u' = u_roles u /\ positions u' = positions u
+  | None => True
+  end.
+Proof. intros og u u'. exact (iff_refl _). Qed.
+Print Assumptions same_structure_unfolds.
+
+(** Calculations only see the holders as a finite map: two states with the same lookup
+    for every key, the same stack and the same invalidated entries give the same answers
+    to EVERY request list (calculate, calculate_add, calculate_divide, set_input,
+    delete_arrays, get_array), for every rule system - ranked or not - and stay related. *)
+Theorem restored_calculates_same : forall pp fuel rs sy s s', same_state s s' ->
+  same_state (fst (Engine.run fuel sy pp s rs)) (fst (Engine.run fuel sy pp s' rs))
+  /\ snd (Engine.run fuel sy pp s rs) = snd (Engine.run fuel sy pp s' rs).
+Proof. exact run_same. Qed.
+Print Assumptions restored_calculates_same.
+
+(** Dump, restore, then any requests: same answers as on the original. *)
+Theorem dump_restore_then_requests :
+  forall (show : period -> string) (parse : string -> res period) (storable : period -> Prop),
+  (forall p, storable p -> parse (show p) = Ok p) ->
+  forall sy og u, dumpable storable sy og u -> stack (u_st u) = [] -> invalid (u_st u) = [] ->
+  exists f u', dump_simulation show sy og u [] = Ok f
+    /\ restore_simulation parse sy og f = Ok u'
+    /\ forall fuel rs,
+         snd (Engine.run fuel sy (pop_of og u') (u_st u') rs)
+         = snd (Engine.run fuel sy (pop_of og u) (u_st u) rs).
+Proof. exact dump_restore_run_proof. Qed.
+Print Assumptions dump_restore_then_requests.
+
+(** For ranked systems (C01): a state that holds the inputs and otherwise only meanings
+    ([Top]) keeps that property through dump and restore, so the restored simulation
+    answers every calculation request with the meaning of the rule system. *)
+Theorem restored_calculates_meaning : forall sy pp inp, ranked sy = true -> 1 <= max_loops sy ->
+  forall s s', Top sy pp inp s -> same_state s s' ->
+  forall rs, forallb is_calc_request rs = true ->
+  snd (Engine.run (enough_fuel sy) sy pp s' rs) = map (sem_answer sy pp inp) rs
+  /\ snd (Engine.run (enough_fuel sy) sy pp s' rs) = snd (Engine.run (enough_fuel sy) sy pp s rs).
+Proof. exact restored_answers_meaning. Qed.
+Print Assumptions restored_calculates_meaning.
 
 (** Two distinct storable periods never share a file name. *)
 Theorem dump_is_injective_on_periods :
@@ -11,3 +102,112 @@ Theorem dump_is_injective_on_periods :
   forall p q, storable p -> storable q -> file_name show p = file_name show q -> p = q.
 Proof. exact file_name_injective. Qed.
 Print Assumptions dump_is_injective_on_periods.
+
+(** The file-name functions the correspondence runs satisfy the hypothesis, for all periods. *)
+Theorem correspondence_encoding_roundtrips : forall p, parse_enc (show_enc p) = Ok p.
+Proof. exact enc_roundtrip. Qed.
+Print Assumptions correspondence_encoding_roundtrips.
+
+(** The hypotheses are decidable (up to storability), and this is the statement about
+    exactly the functions that corr/Corr_C19.v evaluates. *)
+Theorem hypotheses_decidable : forall sy og u,
+  dumpable_b sy og u = true -> dumpable (fun _ => True) sy og u.
+Proof. exact dumpable_b_sound. Qed.
+Print Assumptions hypotheses_decidable.
+
+Theorem restore_dump_identity_as_run : forall sy og u, dumpable_b sy og u = true ->
+  exists f u', dump_simulation show_enc sy og u [] = Ok f
+    /\ restore_simulation parse_enc sy og f = Ok u'
+    /\ (forall k, lookup k (cache (u_st u')) = lookup k (cache (u_st u)))
+    /\ stack (u_st u') = [] /\ invalid (u_st u') = []
+    /\ same_structure og u u'
+    /\ pop_of og u' = pop_of og u.
+Proof. exact restore_dump_identity_corr. Qed.
+Print Assumptions restore_dump_identity_as_run.
+
+(** Role keys: decoding the text written for a flattened role gives the role back. *)
+Theorem roles_roundtrip : forall e r,
+  NoDup (map (role_key e) (flattened_roles e)) -> In r (flattened_roles e) ->
+  decode_role e (encode_role e r) = r.
+Proof. exact decode_encode. Qed.
+Print Assumptions roles_roundtrip.
+
+(** History of finding F18: before the fix the number of groups was recomputed as
+    max(members_entity_id) + 1, which is not the number of stored ids when trailing
+    groups have no member. *)
+Theorem group_count_from_members_refuted :
+  exists (gids members : list nat), length gids <> group_count_before_fix members
+                                    /\ Forall (fun m => m < length gids) members.
+Proof. exact group_count_before_fix_refuted. Qed.
+Print Assumptions group_count_from_members_refuted.
+
+(** * Non-vacuity *)
+
+(** persons 5, 2, 9 in households 4, 7, 1 (the last one without members); a monthly
+    input, an eternal input, a household sum. *)
+Definition ex_sys : sys :=
+  {| vars := [ mk_var EPerson TInt Month None [] 0%Z false false;
+               mk_var EPerson TBool Eternity None [] 0%Z false false;
+               mk_var EGroup TInt Month None [((1, 1, 1)%Z, EAgg GSum None (EDep 0 PSame OPlain))] 0%Z false false ];
+     params := []; switches := []; max_loops := 1 |}.
+Definition ex_og : option gentity := Some std_entity.
+Definition ex_u0 : simu := mk_simu0 true 3 [1; 0; 1] [0; 1; 1] [5; 2; 9] [4; 7; 1].
+Definition march : period := (Month, (2018, 3, 1)%Z, 1%Z).
+Definition ex_before : list request :=
+  [ RSetInput 0 march [10; 20; 30]%Z; RSetInput 1 eternity_period [1; 0; 1]%Z; RCalc 2 march ].
+Definition ex_u : simu :=
+  with_st ex_u0 (fst (Engine.run (enough_fuel ex_sys) ex_sys (pop_of ex_og ex_u0) (init []) ex_before)).
+
+Example ex_before_answers :
+  snd (Engine.run (enough_fuel ex_sys) ex_sys (pop_of ex_og ex_u0) (init []) ex_before)
+  = [ANone; ANone; AVal [20; 40; 0]%Z].
+Proof. vm_compute. reflexivity. Qed.
+
+Example ex_dumpable : dumpable_b ex_sys ex_og ex_u = true.
+Proof. vm_compute. reflexivity. Qed.
+
+Example ex_top : stack (u_st ex_u) = [] /\ invalid (u_st ex_u) = [].
+Proof. vm_compute. auto. Qed.
+
+(** three arrays -> three files in three variable directories, five entity files *)
+Example ex_dump_files :
+  match dump_simulation show_enc ex_sys ex_og ex_u [] with
+  | Ok f => (length f, listdir_top f, map (fun v => length (listdir_var v f)) [0; 1; 2])
+  | Err _ => (0, [], [])
+  end = (8, [0; 1; 2], [1; 1; 1]).
+Proof. vm_compute. reflexivity. Qed.
+
+Example ex_restore :
+  match dump_simulation show_enc ex_sys ex_og ex_u [] with
+  | Ok f =>
+      match restore_simulation parse_enc ex_sys ex_og f with
+      | Ok u' => u_gcount u' = 3 /\ u_gids u' = [4; 7; 1] /\ u_pids u' = [5; 2; 9]
+                 /\ u_roles u' = [0; 1; 1] /\ positions u' = Ok [0; 0; 1]
+                 /\ lookup (2, march) (cache (u_st u')) = Some [20; 40; 0]%Z
+                 /\ lookup (1, eternity_period) (cache (u_st u')) = Some [1; 0; 1]%Z
+                 /\ snd (Engine.run (enough_fuel ex_sys) ex_sys (pop_of ex_og u') (u_st u')
+                           [RCalc 2 (Month, (2018, 4, 1)%Z, 1%Z); RGet 1 march])
+                    = [AVal [0; 0; 0]%Z; AVal [1; 0; 1]%Z]
+      | Err _ => False
+      end
+  | Err _ => False
+  end.
+Proof. vm_compute. repeat split; reflexivity. Qed.
+
+(** a directory that already holds something is refused *)
+Example ex_dirty : dump_simulation show_enc ex_sys ex_og ex_u junk = Err EValue.
+Proof. reflexivity. Qed.
+
+(** the rule system is ranked and a fresh simulation is [Top] for its inputs (C01) *)
+Example ex_ranked : ranked ex_sys = true /\ 1 <= max_loops ex_sys.
+Proof. split; [reflexivity|apply le_n]. Qed.
+
+(** injectivity is about something: the encoding separates a month from the year that
+    starts on the same day, and the role table of the harness has distinct keys *)
+Example ex_names_differ :
+  file_name show_enc (Month, (2018, 1, 1)%Z, 1%Z) <> file_name show_enc (Year, (2018, 1, 1)%Z, 1%Z).
+Proof. vm_compute. discriminate. Qed.
+Example ex_roles : flattened_roles std_entity = [0; 1]
+  /\ NoDup (map (role_key std_entity) (flattened_roles std_entity))
+  /\ decode_role std_entity "0"%string = no_role std_entity.
+Proof. vm_compute. repeat split. repeat constructor; cbn; intuition discriminate. Qed.
